@@ -27,6 +27,8 @@ pub struct Profile {
     // op weights
     pub w_send: u32,
     pub w_stop: u32,
+    /// stop() abandoned by the caller after a timeout
+    pub w_stopt: u32,
     pub w_kill: u32,
     pub w_clone: u32,
     pub w_drop: u32,
@@ -103,6 +105,7 @@ impl Profile {
             caps: vec![8, 1, 2, 3, 4, 32, 0],
             w_send: 20,
             w_stop: 2,
+            w_stopt: 0,
             w_kill: 0,
             w_clone: 2,
             w_drop: 3,
@@ -406,6 +409,7 @@ impl<'a> Gen<'a> {
                 self.p.w_probe,
                 if weak.is_empty() { 0 } else { self.p.w_probeweak },
                 self.p.w_metrics,
+                self.p.w_stopt,
             ];
             let kind = self.ch.weighted(&w);
             // prefer live slots
@@ -461,6 +465,7 @@ impl<'a> Gen<'a> {
                 9 => Op::Convert { h, erased: true, by_ref: self.ch.chance(1, 2) },
                 10 => Op::Probe { h },
                 11 => Op::ProbeWeak { w: wi },
+                13 => Op::StopT { h, t: self.timeout() },
                 _ => {
                     if !weak.is_empty() && self.ch.chance(1, 3) {
                         Op::MetricsWeak { w: wi }
